@@ -898,7 +898,14 @@ impl Builder {
         let saved_locals = self.locals.len();
         let name = match kind {
             FnKind::Function => {
-                let n = if self.rng.chance(1, 4) { self.fresh("_fn") } else { self.fresh("fn") };
+                let n = if self.rng.chance(1, 6) {
+                    // common names, deliberately repeated across contracts (and as overloads)
+                    self.rng.ps(&["destroy", "kill", "withdraw", "initialize", "update", "_update", "sweep"]).to_string()
+                } else if self.rng.chance(1, 4) {
+                    self.fresh("_fn")
+                } else {
+                    self.fresh("fn")
+                };
                 self.fn_names.push(n.clone());
                 Some(n)
             }
